@@ -231,9 +231,17 @@ Fixpoint nodup_rich (l : list ivl) : bool :=
   | x :: r => (is_plain x || negb (existsb (ivl_eqb x) r)) && nodup_rich r
   end.
 
+(* no payload id occurs in two leaves / twice in a leaf (it does when the same timeline object is
+   used twice in an expression: then a repeated (id, span) in a result is legitimate) *)
+Fixpoint nodupN (l : list N) : bool :=
+  match l with
+  | [] => true
+  | x :: r => negb (memN x r) && nodupN r
+  end.
+
 Definition events_weak_ok (env : fenv) (e : expr) (a b : option Z) (out : list ivl) : bool :=
   let ids := rich_ids (leaves e) in
   let pts := bnd_lo a :: bnd_hi b :: ends_of (leaves e) ++ ends_of out in
   forallb (fun o => match pl o with Rich id => memN id ids | Plain => true end) out &&
   forallb (fun id => agree_on pts (covers (copies id out)) (fun t => inw a b t && surv env e id t)) ids &&
-  nodup_rich out.
+  (nodup_rich out || negb (nodupN ids)).
